@@ -1089,6 +1089,16 @@ func (s *c16Session) line(op string) {
 		}
 		return
 	}
+	if w[0] == "calc" && len(w) == 4 && c16IsInt(w[1], false) && c16IsInt(w[2], false) {
+		if k, _ := strconv.Atoi(w[1]); k >= 2 && k <= 6 {
+			if id, _ := strconv.Atoi(w[2]); id >= 1 && id <= k {
+				if ents, ok := c16CalcParse(w[3]); ok {
+					s.calc(op, k, id, ents)
+					return
+				}
+			}
+		}
+	}
 	if w[0] == "reset" {
 		s.close()
 		s.f = xl.NewFile()
@@ -1268,6 +1278,98 @@ func (s *c16Session) line(op string) {
 	}
 	if res == "PANIC" {
 		r.Fail("panic:"+w[0], op+" panicked", ln, replay)
+	}
+}
+
+type c16CalcEnt struct {
+	i int
+	r string
+}
+
+func c16CalcParse(e string) ([]c16CalcEnt, bool) {
+	if e == "-" {
+		return nil, true
+	}
+	var out []c16CalcEnt
+	for _, x := range strings.Split(e, ",") {
+		p := strings.Split(x, ".")
+		if len(p) != 2 || !c16IsInt(p[0], false) || !c16IsHex(p[1]) {
+			return nil, false
+		}
+		i, _ := strconv.Atoi(p[0])
+		out = append(out, c16CalcEnt{i, unhx(p[1])})
+	}
+	return out, true
+}
+
+func c16CalcShow(es []c16CalcEnt) string {
+	if len(es) == 0 {
+		return "nil"
+	}
+	var xs []string
+	for _, e := range es {
+		xs = append(xs, strconv.Itoa(e.i)+"."+hx(e.r))
+	}
+	return strings.Join(xs, ",")
+}
+
+// calc: a fresh workbook with k sheets (ids 1..k) gets a calculation chain, the sheet with the given id is
+// deleted through the public DeleteSheet, the remaining chain (File.CalcChain) is the answer
+// (Lean: deleteCalcChain, calcchain_delete_sheet).  Stateless: the session workbook is not touched.
+func (s *c16Session) calc(op string, k, id int, ents []c16CalcEnt) {
+	r := s.r
+	f := xl.NewFile()
+	defer f.Close()
+	for j := 2; j <= k; j++ {
+		_, _ = f.NewSheet("Sheet" + strconv.Itoa(j))
+	}
+	name := "Sheet" + strconv.Itoa(id)
+	setup := f.GetSheetMap()[id] == name && len(f.GetSheetList()) == k
+	var b strings.Builder
+	b.WriteString(`<calcChain xmlns="http://schemas.openxmlformats.org/spreadsheetml/2006/main">`)
+	for _, e := range ents {
+		fmt.Fprintf(&b, `<c r="%s" i="%d"/>`, e.r, e.i)
+	}
+	b.WriteString(`</calcChain>`)
+	// NewFile / OpenReader decode the chain eagerly (file.go, excelize.go): resetting the exported field makes
+	// calcChainReader decode the stored part on its next call, as it does for an opened workbook
+	f.CalcChain = nil
+	f.Pkg.Store("xl/calcChain.xml", []byte(b.String()))
+	res := func() (res string) {
+		defer func() {
+			if recover() != nil {
+				res = "PANIC"
+			}
+		}()
+		if err := f.DeleteSheet(name); err != nil {
+			return "ERR"
+		}
+		if f.CalcChain == nil {
+			return "nil"
+		}
+		var got []c16CalcEnt
+		for _, c := range f.CalcChain.C {
+			got = append(got, c16CalcEnt{c.I, c.R})
+		}
+		return c16CalcShow(got)
+	}()
+	ln := r.Op(op, res)
+	r.Stat("op:calc:" + map[bool]string{true: "emptied", false: "kept"}[res == "nil"])
+	if !setup || len(f.GetSheetList()) != k-1 {
+		r.Fail("calc:setup", fmt.Sprintf("%s: the workbook does not have sheet id %d named %s, or DeleteSheet did not remove it", op, id, name), ln, op)
+		return
+	}
+	var want []c16CalcEnt
+	for _, e := range ents {
+		if !(e.i == id || (e.i == 0 && e.r == "")) {
+			want = append(want, e)
+		}
+	}
+	if w := c16CalcShow(want); res != w {
+		r.Fail("calc:entries", fmt.Sprintf("%s left the calculation chain %s, expected %s (the entries of the other sheets, in order)", op, res, w), ln, op)
+	}
+	if _, stale := f.Pkg.Load("xl/calcChain.xml"); res == "nil" && stale {
+		r.Fail("calc:stale-part", op+": the chain is empty but xl/calcChain.xml is still in the package", ln, op)
 	}
 }
 
@@ -1504,8 +1606,33 @@ func runC16(r *Run, rng *Rng, replay string) {
 	for i := 0; i < np; i++ {
 		c16RenameTextProbe(r, rng)
 	}
+	// 5. calculation chain under DeleteSheet (stateless lines; drawn after everything else so that the
+	// histories and probes of a seed are unchanged)
+	ncalc := 300
+	if r.Tier == "thorough" {
+		ncalc = 3000
+	}
+	calcLines := []string{"calc 2 1 -", "calc 2 2 1." + hx("A1"), "calc 3 2 2." + hx("A1") + ",2." + hx("B2"),
+		"calc 3 1 1." + hx("A1") + ",2." + hx("B1") + ",1." + hx("C1") + ",3." + hx("A1"), "calc 2 1 0.-,0." + hx("A1") + ",2.-"}
+	for i := 0; i < ncalc; i++ {
+		k := 2 + rng.Intn(5)
+		id := 1 + rng.Intn(k)
+		var es []c16CalcEnt
+		for n := rng.Intn(8); n > 0; n-- {
+			es = append(es, c16CalcEnt{rng.Intn(k + 2), rng.Pick([]string{"A1", "B2", "C10", "AA7", "A1", ""})})
+		}
+		e := c16CalcShow(es)
+		if len(es) == 0 {
+			e = "-"
+		}
+		calcLines = append(calcLines, fmt.Sprintf("calc %d %d %s", k, id, e))
+	}
+	for _, l := range calcLines {
+		s.line(l)
+		r.Case(l, true)
+	}
 	// malformed lines: the driver must answer bad-op
-	for _, l := range []string{"new", "new zz", "copy a b", "vis 61", "frobnicate 1", "act x", "setc 61 -3", "defn x 61", "gidx zz", "gnm -1", "gnm 1234567890", "gidx 5368656574", "gnm 0", "gnm 7"} {
+	for _, l := range []string{"new", "new zz", "copy a b", "vis 61", "frobnicate 1", "act x", "setc 61 -3", "defn x 61", "gidx zz", "gnm -1", "gnm 1234567890", "gidx 5368656574", "gnm 0", "gnm 7", "calc 1 1 -", "calc 3 4 -", "calc 7 1 -", "calc 2 1 1", "calc 2 1 x.41", "calc 2 1"} {
 		s.line(l)
 	}
 	for _, x := range r.opsSample(6) {
